@@ -43,6 +43,7 @@ class Env:
         e.live = self.live
         e.point = self.point
         e.loop_iter = getattr(self, 'loop_iter', None)
+        e.outer_iter = getattr(self, 'outer_iter', None)
         e.in_old = getattr(self, 'in_old', False)
         return e
 
@@ -162,9 +163,10 @@ class SpecEval:
                 return rs[-1]
             if name.startswith('result') and name[6:].isdigit() and int(name[6:]) < len(rs):
                 return rs[int(name[6:])]
-            for r, v in zip(fr.fn.results, rs):
-                if r['n'] == name:
-                    return v
+            if not getattr(env, 'extern', False):
+                for r, v in zip(fr.fn.results, rs):
+                    if r['n'] == name:
+                        return v
         # a variable whose address is taken lives in a cell (Alloc commented with its name): its current
         # value is the content of the cell (for parameters: outside old() only)
         pt = getattr(env, 'point', None)
@@ -187,6 +189,12 @@ class SpecEval:
         pt = getattr(env, 'point', None)
         if pt is not None:
             r = fr.fn.reaching_ref(name, pt[0], pt[1])
+            if r is not None and r[0]['k'] in ('nil', 'const'):
+                # go/ssa records `x := T{}` as a reference to the zero value placed before the allocation:
+                # when the variable has exactly one register that is live on this path, that is its value
+                regs = [(a2, ad) for (key, a2, ad, blk) in fr.fn.names().get(name, ()) if a2['k'] == 'reg' and a2['n'] in fr.regs]
+                if len(regs) == 1:
+                    r = regs[0]
             if r is not None:
                 a, isaddr = r
                 if a['k'] != 'reg' or a['n'] in fr.regs:
@@ -431,6 +439,11 @@ class SpecEval:
             return self.eval(args[0], e2)
         if name == 'atloop':
             return self.eval(args[0], env.with_state(env.loop_entry))
+        if name == 'atouter':
+            # the value at the beginning of the current iteration of the ENCLOSING loop
+            if getattr(env, 'outer_iter', None) is None:
+                raise SpecError('atouter() without an enclosing loop step')
+            return self.eval(args[0], env.with_state(env.outer_iter))
         if name == 'athead':
             # the value at the beginning of the current iteration (state at the loop head)
             if getattr(env, 'loop_iter', None) is None:
@@ -523,14 +536,35 @@ class SpecEval:
             a = self.eval(args[0], env)
             b = self.eval(args[0], env.with_state(env.old))
             return self.equal(a, b)
-        if name == 'seen':
-            # seen(k): key k was already visited by the map-range loop the invariant belongs to
-            if env.loop_head is None:
-                raise SpecError('seen() outside a loop invariant')
-            iid = self.ex.loop_iterator(env.frame, env.loop_head)
-            if iid is None or iid not in env.st.iters:
-                raise SpecError('seen() in a loop that does not range over a map')
-            return z3.Select(env.st.iters[iid][0], self.eval_term(args[0], env))
+        if name == 'external':
+            # external(r): the object was handed out by code outside the module (never owned by the run)
+            v = self.eval_term(args[0], env)
+            b = self.ex.external_bound if self.ex.external_bound is not None else self.ex.entry_alloc
+            return z3.And(v >= 0, v < b)
+        if name == 'storeBal':
+            f = m.uf('store_balance', m.Str, m.Str, m.Int)
+            return f(self.eval_term(args[0], env), self.eval_term(args[1], env))
+        if name == 'storeMeta':
+            f = m.uf('store_meta', m.Str, m.Str, m.Str)
+            return f(self.eval_term(args[0], env), self.eval_term(args[1], env))
+        if name in ('seen', 'seenOuter'):
+            # seen(k): key k was already visited by the innermost enclosing map-range loop
+            # seenOuter(k): the same for the next enclosing map-range loop
+            heads = []
+            if env.loop_head is not None:
+                heads.append(env.loop_head)
+            for (h, info) in reversed(env.frame.loopstack):
+                if h not in heads:
+                    heads.append(h)
+            iids = []
+            for h in heads:
+                iid = self.ex.loop_iterator(env.frame, h)
+                if iid is not None and iid in env.st.iters and iid not in iids:
+                    iids.append(iid)
+            want = 0 if name == 'seen' else 1
+            if len(iids) <= want:
+                raise SpecError('%s() without an enclosing loop that ranges over a map' % name)
+            return z3.Select(env.st.iters[iids[want]][0], self.eval_term(args[0], env))
         if name == 'ref':
             return self.term(self.eval(args[0], env))
         if name == 'arr':
@@ -697,6 +731,21 @@ class SpecEval:
                 from .exec import PredLoc
                 key = ('cellsof', cb.leaves[0].get_id(), dom1.get_id(), val1.get_id(), md2.get_id(), mv2.get_id())
                 return [('H|bigint||Int', PredLoc(holds, key))]
+            if fn == 'innermapsof':
+                # the per-account maps held by the balance cache of the given programState
+                stp = self.eval(ast[2][0], env)
+                cb = self.select(stp, 'CachedBalances', env)
+                u1, K1, V1 = ex.map_parts(cb.t)
+                st0 = env.st
+                dom1 = z3.Select(st0.heap('MD|%s' % u1), cb.leaves[0])
+                val1 = z3.Select(st0.heap('MV|%s||Int' % u1), cb.leaves[0])
+                a = z3.Const('a!im', m.Str)
+
+                def holds(r, cbref=cb.leaves[0]):
+                    return z3.Exists([a], z3.And(cbref != 0, z3.Select(dom1, a), z3.Select(val1, a) == r))
+                from .exec import PredLoc
+                key = ('innermapsof', cb.leaves[0].get_id(), dom1.get_id(), val1.get_id())
+                return [(n, PredLoc(holds, key)) for n in sorted(ex.map_heaps(V1))]
             if fn == 'allof':
                 # allof(T): every object of struct type T (whole heap family)
                 tk = self.type_key(ast[2][0])
